@@ -47,6 +47,22 @@ Theorem C12_paging_old_refuted : forall (l : list N),
 Proof. exact (paging_old_refuted N.eqb N.eqb_eq). Qed.
 Print Assumptions C12_paging_old_refuted.
 
+(* against ANY storing node (hostile included): the capped page loop ends after at most MAX_VALUE_PAGES+1 requests *)
+Theorem C12_paging_terminates_any_server : forall (srv : nat -> list N * nat) (fuel : nat),
+  MAX_VALUE_PAGES + 2 <= fuel ->
+  let r := walk N.eqb real_cap fuel srv {| pg := 0; disc := [] |} [] [] in
+  snd r = true /\ length (snd (fst r)) <= MAX_VALUE_PAGES + 1.
+Proof. exact paging_terminates_any_server. Qed.
+Print Assumptions C12_paging_terminates_any_server.
+
+(* the loop before commit fac7223: a fresh full page announcing one more page always makes it ask again *)
+Theorem C12_uncapped_page_step_refuted : forall (st : pstate) (items : list N) (pages : nat),
+  items <> [] -> NoDup items -> (forall x, In x items -> ~ In x (disc st)) ->
+  K <= length items -> pg st < pages ->
+  page_step N.eqb None st items pages = ({| pg := S (pg st); disc := disc st ++ items |}, true).
+Proof. exact (page_step_uncapped_again N.eqb N.eqb_eq). Qed.
+Print Assumptions C12_uncapped_page_step_refuted.
+
 (* ---------------- finder bookkeeping ---------------- *)
 (* For ANY sequence of events (replies with any contacts, timeouts, errors, crashes, in any order): the number
    of probes ever scheduled is at most the id-less seeds plus (1 + MAX_VALUE_PAGES) per distinct peer ever
@@ -143,4 +159,19 @@ Example C12_ex_store :
   = ([1; 2], [1], [2], [(7, [(2, 200%Z)])])%N.
 Proof. vm_compute. reflexivity. Qed.
 Example C12_ex_compact : (valid_compact (mk_compact 5), decode_compact [x01; x02; x03]) = (true, DCrash).
+Proof. vm_compute. reflexivity. Qed.
+(* a concrete node lookup: two known peers, one replies with a closer contact, the searcher itself and a known-bad
+   contact; one times out; the lookup ends by exhaustion and yields the two good peers closest first *)
+Definition ex_peer (i d : N) : peer := {| pid := i; pdist := d; has_id := true; self_id := false; self_addr := false |}.
+Definition ex_me : peer := {| pid := 9; pdist := 0; has_id := true; self_id := true; self_addr := true |}.
+Definition ex_prm : fparams := {| fp_kind := KNode; fp_key_is_self := false; fp_maxres := 16; fp_cap := real_cap |}.
+Definition ex_evs : list fev :=
+  [EInit [ex_peer 1 5; ex_peer 2 3]; EStart [];
+   ENodeReply (ex_peer 2 3) false [(ex_peer 3 1, false); (ex_me, false); (ex_peer 4 7, true)] true false [];
+   EDone 2 []; EFail 1; EDone 1 [];
+   ENodeReply (ex_peer 3 1) false [(ex_peer 2 3, false)] true false []; EDone 3 [2; 3]]%N.
+Example C12_ex_finder :
+  (snd (frun ex_prm f_init ex_evs), f_sched (final_state ex_prm ex_evs), f_contacted (final_state ex_prm ex_evs))
+  = ([([], 0); ([OSched 2; OSched 1], 0); ([], 0); ([OSched 3], 0); ([], 0); ([], 0); ([], 0);
+      ([OYield [3; 2]; OFinish], 0)], 3%nat, [2; 1; 3])%N.
 Proof. vm_compute. reflexivity. Qed.
